@@ -2,4 +2,5 @@ SPECIFICATION TSpec
 CONSTANTS Ids = {} Items = {} Weights = {} Cfgs = {} MaxTotal = 0
  TierB = TRUE
 POSTCONDITION Accepted
+CONSTANT WideNums = FALSE
 CHECK_DEADLOCK FALSE
